@@ -462,6 +462,8 @@ func runC15(c *Ctx, r *Report) {
 	r.Floor("C15.R3", 2)
 	// R6: `()` at the end of a line is the start of a lambda: where parseGroupedExpression finds `)` right after `(`
 	// and the line ends there, it asks for more (continuationNeeded = true) instead of parsing `)` as an expression
+	r.Rule("C15.R7", "an operand is left out only before its closer: every return of parseInfixExpression that is not preceded by the store of Right lies on the true edge of a test of the next token against RBRACKET")
+	c.checkOperandOmittedOnlyBeforeCloser(r, "C15.R7")
 	r.Rule("C15.R6", "an empty parameter list that ends the line asks for the rest: parseGroupedExpression has a block under curTokenIs(RPAREN) and peekTokenIs(EOL) that sets continuationNeeded")
 	{
 		fn := c.SSAFn(c.Fn("parser", "Parser.parseGroupedExpression"))
